@@ -209,7 +209,7 @@ def t_names():
 
 def tasks(tier, seed):
     ts = [{"name": "names", "fn": "t_names"}]
-    n = 2500 if tier == "quick" else 40000
+    n = 1800 if tier == "quick" else 40000
     for k in range(16):
         ts.append({"name": "random-%d" % k, "fn": "t_random", "kw": {"seed": mix(seed, ID, k), "n": n}})
     return ts
